@@ -102,3 +102,22 @@ LEVEL_TEXT = {
                "every case is replayable from its description; finds violations with probability growing in the "
                "number of cases, proves nothing",
 }
+
+HISTORY_RULE = (
+    "one case = one generated registry world (sources, stored and unstored calls, dependent sources, plain and "
+    "normalising stores) + a history of 2-7 operations (runs, failing / cut / interrupted runs, source updates, "
+    "deletions, fresh_time advances), each run executed under the simulator; invariants are evaluated after every "
+    "operation; non-trivial = a run had >= 2 operations in flight at once or >= 1 pre-emptive switch; distinct = "
+    "distinct (world digest, interleaving digest) pairs"
+)
+for _p in ("C03", "C05", "C09"):
+    reg(_p, "checks.history", dict(quick=2000, thorough=40000), dict(quick=55, thorough=900), "exploration", HISTORY_RULE)
+
+reg("C17", "checks.interrupt", dict(quick=500, thorough=12000), dict(quick=55, thorough=900), "fault_enumeration",
+    "one case = one generated world + configuration + schedule seed; the run is first executed uninterrupted to learn "
+    "its K call starts, then re-executed once for EVERY k <= K (capped at 14 quick / 40 thorough) with "
+    "KeyboardInterrupt made pending in the caller when the k-th call starts and delivered at the caller's next "
+    "simulated operation (Thread.start, Lock.acquire, Condition.wait, Thread.join) or by waking its interruptible "
+    "wait; registry worlds are followed by a repair run; evaluations = simulated runs; non-trivial = >= 2 operations "
+    "in flight or >= 1 pre-emptive switch; distinct = distinct (world, interleaving digest)",
+    chunk=4, recheck_every=25)
